@@ -11,7 +11,10 @@ import fam_emitast
 
 ID = "C02"
 COQ_PROP = "C02"
-FAMILIES = [(fam_parseast, 2500, 30000), (fam_emitast, 2500, 30000)]
+import fam_docemit  # noqa: E402  (the class docstring is written by to_docstring / fill and read by the ReST parser)
+import fam_docparse  # noqa: E402
+
+FAMILIES = [(fam_parseast, 2000, 30000), (fam_emitast, 2000, 30000), (fam_docemit, 1200, 15000), (fam_docparse, 1000, 15000)]
 TECHNIQUE = ("Coq proof of the AST-level codec parse_class d (emit_class ir) under the named docstring hypothesis doc_agrees ir d: "
              "names/order/return presence for every IR of the domain whatever types and defaults are (C02_names_order); inside "
              "guard_C02_ast the parser returns the closed form norm_C02 ir, same_interface_strict to zero_default_norm ir -- types "
